@@ -190,7 +190,9 @@ func (c *Confirm) Get(w http.ResponseWriter, r *http.Request) error {
 
 	rawToken, err := base64.URLEncoding.DecodeString(values.GetToken())
 	if err != nil {
-		logger.Infof("error decoding token in Confirm.Get, this typically means a bad token: %s %+v", values.GetToken(), err)
+		// the submitted value is not logged: a genuine token with a stray
+		// character appended (eg. by a mail client) fails to decode as well
+		logger.Infof("error decoding token in Confirm.Get, this typically means a bad token: %+v", err)
 		return c.invalidToken(w, r)
 	}
 
